@@ -1590,6 +1590,62 @@ def split_cell_y_cases(table, continued, header_declared=False):
     return []
 
 
+# ---------------------------------------------------------------- <col> / <colgroup> boxes (table_layout)
+
+def column_boxes_case(table, first_fragment):
+    """(protocol args, implementation output, tags) of `columnboxes` for one table fragment with column
+    groups: logical column positions / widths, the rows' origin and end, the grid_x of the columns of
+    every group in; the boxes of the columns and of the groups out."""
+    from vlib import sx
+    groups = list(table.column_groups)
+    if not groups or not all(g.children for g in groups):
+        return None
+    ltr = table.style['direction'] == 'ltr'
+    collapse = table.style['border_collapse'] == 'collapse'
+    sp = F(0) if collapse else num(table.style['border_spacing'][1])
+    pos, cw = rats(table.column_positions), rats(table.column_widths)
+    if not ltr:
+        pos, cw = pos[::-1], cw[::-1]
+    y0 = rows_case(table, first_fragment)[0][0]
+    kids = list(table.children)
+    end_y = (num(kids[-1].position_y) + num(kids[-1].height) + sp) if kids else y0
+    args = [pos, cw, y0, end_y, sp, bool(kids), [[c.grid_x for c in g.children] for g in groups]]
+
+    def box(b):
+        return f'({sx.atom(num(b.position_x))} {sx.atom(num(b.position_y))} {sx.atom(num(b.width))} {sx.atom(num(b.height))})'
+    out = 'ok ' + ' '.join('((' + ' '.join(box(c) for c in g.children) + ') ' + box(g) + ')' for g in groups)
+    tags = ['ltr' if ltr else 'rtl', f'groups{min(len(groups), 3)}',
+            'multi-column-group' if any(len(g.children) > 1 for g in groups) else 'single-column-groups']
+    return args, out, tags
+
+
+def columns_violation(table, known=True, tol=1e-6):
+    """Every `<col>` box inside the grid is its column (x, width), every `<colgroup>` box covers exactly
+    its columns (from the leftmost to the rightmost one) and has a non-negative width.  `known=True`:
+    a group of several columns of an rtl table is not judged (known finding
+    rtl-column-group-negative-width)."""
+    ltr = table.style['direction'] == 'ltr'
+    n = len(table.column_widths)
+    positions, widths = list(table.column_positions), list(table.column_widths)      # visual order
+    for group in table.column_groups:
+        inside = [c for c in group.children if c.grid_x < n]
+        for col in inside:
+            v = col.grid_x if ltr else n - 1 - col.grid_x
+            if abs(col.position_x - positions[v]) > tol or abs(col.width - widths[v]) > tol:
+                return (f'<col> of grid column {col.grid_x} has the box x={col.position_x} width={col.width}, its '
+                        f'column is at x={positions[v]} width={widths[v]}')
+        if len(inside) != len(group.children) or not inside:
+            continue
+        if known and not ltr and len(inside) > 1:
+            continue
+        left = min(c.position_x for c in inside)
+        right = max(c.position_x + c.width for c in inside)
+        if group.width < -tol or abs(group.position_x - left) > tol or abs(group.width - (right - left)) > tol:
+            return (f'<colgroup> of the grid columns {[c.grid_x for c in inside]} has the box x={group.position_x} '
+                    f'width={group.width}, its columns reach from x={left} to x={right}')
+    return None
+
+
 # ---------------------------------------------------------------- header / footer groups (wrap_table)
 
 def group_order_out(out):
